@@ -5,6 +5,8 @@
 
 namespace vf {
 
+using Mask = unsigned __int128;          // one bit per state id: the zoo describes machines of up to 128 states
+static constexpr int MASK_BITS = 128;
 static constexpr uint8_t NOID = 0xFF;    // ffsm2::INVALID_STATE_ID
 static constexpr uint8_t WHO_SELF = 0xFE;
 
@@ -80,11 +82,11 @@ struct Ev {
 	uint8_t hasLocal = 0;              // localSum is valid (EV_BEGIN / EV_END)
 	uint16_t local = 0;                // EV_CB: the callback counter kept in a data member of the object whose callback this is (after this delivery)
 	uint32_t localSum = 0;             // hash over the data members of every state object, read through access<T>()
-	uint64_t cAct = 0;
+	Mask cAct = 0;
 	TrV req, pend, cur;
 	// machine view (EV_CB, EV_BEGIN, EV_END)
 	uint8_t mAct = NOID, mManual = 2 /* 0 inactive, 1 active, 2 n/a */, planFlags = 0, hasSerial = 0;
-	uint64_t mActMask = 0;
+	Mask mActMask = 0;
 	TrV prev;
 	uint32_t planOff = 0, planLen = 0;
 	uint16_t serial = 0;
@@ -95,10 +97,10 @@ struct Info {  // static description of the zoo member the case ran on
 	uint8_t cfg = 0, N = 0, L = 0, head = 0, manual = 0, payAlign = 0, ctx = 0;
 	uint16_t paySize = 0;
 	uint16_t cap = 0;
-	uint8_t inj[64] = {};   // injections per state
+	uint8_t inj[128] = {};   // injections per state
 	uint8_t headInj = 0;
-	uint64_t bare = 0;      // states that do not define every callback (twins)
-	uint16_t defMask[64] = {};   // per state: which methods (bit = Meth) the state class defines
+	Mask bare = 0;      // states that do not define every callback (twins)
+	uint16_t defMask[128] = {};   // per state: which methods (bit = Meth) the state class defines
 	uint8_t hasPlans = 0, hasSerial = 0, hasHistory = 0, hasLog = 0, verbose = 0;
 	uint16_t serialBits = 0;
 	uint32_t instSize = 0;
@@ -150,11 +152,11 @@ inline uint64_t digest(const Trace& t, int mask) {
 		if (!(mask & DGB_PLAN) && e.kind == EV_NOTE && e.method == NOTE_HELD) continue;   // exists only in builds with plans
 		hmix(h, e.kind); hmix(h, e.inst); hmix(h, e.state); hmix(h, e.method); hmix(h, e.who); hmix(h, e.ctl);
 		hmix(h, e.a); hmix(h, e.b); hmix(h, e.c);
-		if (e.kind == EV_CB) { hmix(h, e.sid); hmix(h, e.ctxOk); hmix(h, e.evtOk); hmix(h, e.cAct); htr(h, e.req); htr(h, e.pend); htr(h, e.cur); hmix(h, e.local); }
+		if (e.kind == EV_CB) { hmix(h, e.sid); hmix(h, e.ctxOk); hmix(h, e.evtOk); hmix(h, uint64_t(e.cAct)); hmix(h, uint64_t(e.cAct >> 64)); htr(h, e.req); htr(h, e.pend); htr(h, e.cur); hmix(h, e.local); }
 		if (e.hasLocal) hmix(h, e.localSum);
 		if (e.kind == EV_NOTE && e.method == NOTE_AFTER) htr(h, e.req);
 		if (e.kind == EV_CB || e.kind == EV_BEGIN || e.kind == EV_END || (e.kind == EV_NOTE && e.method == NOTE_AFTER)) {
-			hmix(h, e.mAct); hmix(h, e.mManual); hmix(h, e.mActMask);
+			hmix(h, e.mAct); hmix(h, e.mManual); hmix(h, uint64_t(e.mActMask)); hmix(h, uint64_t(e.mActMask >> 64));
 			if (mask & DGB_PREV) htr(h, e.prev);
 			if (mask & DGB_SERIAL) { hmix(h, e.hasSerial); hmix(h, e.serial); }
 			if (mask & DGB_PLAN) {
